@@ -210,6 +210,19 @@ class Graph:
                 lab = None
                 if two_way:
                     lab = (cond, f, i == 0)
+                    # what the outcome implies: `ok` (a boolean local initialised once from `A && B`) being true implies A and B;
+                    # `!(A || B)` being true implies !A and !B.  The edge is expanded into a chain of edges, one per implied atom,
+                    # so that every obligation phrased over edges sees the atoms whatever the form of the guard is.
+                    atoms = self._implied_atoms(f, cond, i == 0)
+                    if len(atoms) > 1:
+                        for t in tails:
+                            cur = t
+                            for (ai, apol) in atoms[:-1]:
+                                nxt = self._new(f, None, None, ctx, 'nop', b['id'])
+                                cur.succ.append((nxt, (ai, f, apol)))
+                                cur = nxt
+                            cur.succ.append((first[s], (atoms[-1][0], f, atoms[-1][1])))
+                        continue
                 elif term is not None and term['k'] == 'SwitchStmt':
                     sb = f.block(s)
                     l = sb.get('label')
@@ -221,6 +234,49 @@ class Graph:
                     t.succ.append((first[s], lab))
         self.ctx_bounds[id(ctx)] = (first[f.entry], first[f.exit])
         return first[f.entry], first[f.exit]
+
+    def _implied_atoms(self, f, cond, truth, depth=0):
+        """[(node idx, polarity)]: atoms implied by `cond` evaluating to `truth` (the condition itself first)"""
+        out = [(cond, truth)]
+        if depth > 6:
+            return out
+        n = f.nodes[cond]
+        hops = 0
+        while n['k'] == 'cast' and hops < 6:
+            n = f.nodes[n['e']]
+            hops += 1
+        if n['k'] == 'unop' and n['op'] == '!':
+            sub = self._implied_atoms(f, n['e'], not truth, depth + 1)
+            return out + [a for a in sub if a not in out]
+        if n['k'] == 'binop' and ((n['op'] == '&&' and truth) or (n['op'] == '||' and not truth)):
+            for side in (n['lhs'], n['rhs']):
+                for a in self._implied_atoms(f, side, truth, depth + 1):
+                    if a not in out:
+                        out.append(a)
+            return out
+        if n['k'] == 'ref' and n.get('sk') == 'local' and (n.get('t') or '').replace('const ', '') == 'bool':
+            init = self._once_bool_init(f, n.get('id'))
+            if init is not None:
+                for a in self._implied_atoms(f, init, truth, depth + 1):
+                    if a not in out:
+                        out.append(a)
+        return out
+
+    def _once_bool_init(self, f, vid):
+        """initialiser of a boolean local that is initialised at its declaration and never assigned again, else None"""
+        cache = self.__dict__.setdefault('_once_cache', {}).setdefault(id(f), {})
+        if vid in cache:
+            return cache[vid]
+        inits = [d.get('init') for m in f.nodes if m['k'] == 'declstmt' for d in m['decls'] if d['id'] == vid]
+        r = None
+        if len(inits) == 1 and inits[0] is not None and inits[0] >= 0:
+            from .expr import defs_in_node
+            written = any(v == vid for m in f.nodes if m['k'] != 'declstmt' for (v, st, vx) in defs_in_node(f, m)) or \
+                any(m['k'] == 'unop' and m['op'] == '&' and f.nodes[m['e']]['k'] == 'ref' and f.nodes[m['e']].get('id') == vid for m in f.nodes)
+            if not written:
+                r = inits[0]
+        cache[vid] = r
+        return r
 
     def _splice(self, f, call, ctx):
         """returns list of (entry, exit, optional) sub-graphs to run before the call point"""
